@@ -69,6 +69,9 @@ def engine_quirk(ex, case, ref=None):
             "null" in msg or "Null" in msg) and (any(len(t["rows"]) == 0 for t in case["tables"]) or (
                 ref is not None and any(t.n == 0 for t in ref.vars.values()))):
         return "polars_empty_frame_null_dtype"  # typing of all-null results over empty frames
+    if exc_name(ex) == "InvalidOperationError" and "conversion from" in msg and "failed" in msg and any(
+            d not in ("int64", "float64", "bool", "str", "date", "datetime") for t in case["tables"] for _, d in t["cols"]):
+        return "sized_int_overflow"  # out of domain (DESIGN §4.1 / §4.11): value does not fit a sized column type
     if exc_name(ex) == "InvalidOperationError" and "joining with repeated key names" in msg:
         return "polars_repeated_join_key"  # Polars limitation on join keys (join docstring note)
     return None
